@@ -299,7 +299,31 @@ func c04Env() *stick.Env {
 	return env
 }
 
+// c04Literals: chains of one operator repeated, all operands literal (a pattern written in the source may be prepared
+// once per expression - each operator still uses its own): bare and with the restating parentheses they render alike.
+func c04Literals(op, a, b, c2, subj int) core.Result {
+	lits := []string{"'^a'", "'^1$'", "'^$'", "'1'", "'a'", "''", "'b$'"}
+	subjects := []string{"'abc'", "'1'", "''", "'ab'", "s"}
+	o := []string{"matches", "starts with", "ends with", "in", "~", "=="}[op]
+	bare := subjects[subj] + " " + o + " " + lits[a] + " " + o + " " + lits[b] + " " + o + " " + lits[c2]
+	par := "(((" + subjects[subj] + " " + o + " " + lits[a] + ") " + o + " " + lits[b] + ") " + o + " " + lits[c2] + ")"
+	env := c04Env()
+	ctx := map[string]stick.Value{"s": "a1"}
+	o1, e1, p1 := tryExec(env, "{{ "+bare+" }}|{{ "+bare+" ? 'T' : 'F' }}", ctx)
+	o2, e2, p2 := tryExec(env, "{{ "+par+" }}|{{ "+par+" ? 'T' : 'F' }}", ctx)
+	if p1 != "" || p2 != "" {
+		return core.Violation("panic", fmt.Sprintf("{{ %s }}: %s %s", bare, p1, p2))
+	}
+	if o1 != o2 || (e1 == nil) != (e2 == nil) {
+		return core.Violation("rendered", fmt.Sprintf("{{ %s }} renders %q (%v) but {{ %s }} renders %q (%v)", bare, o1, e1, par, o2, e2))
+	}
+	return core.Okay(true, o1)
+}
+
 func c04Run(c core.Case) core.Result {
+	if c.Fam == "literals" {
+		return c04Literals(c.N[0], c.N[1], c.N[2], c.N[3], c.N[4])
+	}
 	if c.Fam == "long" {
 		return c04Long(c)
 	}
@@ -494,6 +518,19 @@ func c04Gen(k int, decorate bool, emit func(core.Case)) {
 
 func c04Levels(tier string) []core.Level {
 	lv := []core.Level{
+		{Name: "one operator three times in a row over literal operands (matches / starts with / ends with / in / ~ / == x 7^3 literals x 5 subjects): bare = parenthesised", Gen: func(emit func(core.Case)) {
+			for op := 0; op < 6; op++ {
+				for a := 0; a < 7; a++ {
+					for b := 0; b < 7; b++ {
+						for c2 := 0; c2 < 7; c2++ {
+							for sj := 0; sj < 5; sj++ {
+								emit(core.Case{Fam: "literals", N: []int{op, a, b, c2, sj}})
+							}
+						}
+					}
+				}
+			}
+		}},
 		{Name: "chains of 1 binary operator (27) x unary/conditional decorations", Gen: func(emit func(core.Case)) { c04Gen(1, true, emit) }},
 		{Name: "chains of 2 binary operators (27^2) x decorations", Gen: func(emit func(core.Case)) { c04Gen(2, true, emit) }},
 		{Name: "chains of 3 binary operators (27^3) x decorations", Gen: func(emit func(core.Case)) { c04Gen(3, true, emit) }},
